@@ -373,7 +373,14 @@ def handle (j : Json) : Except String Json := do
         match sj.getStr? with
         | .ok "notlast" => return EnvMsg.snapshot .notLast
         | .ok "broken" => return EnvMsg.snapshot .broken
-        | _ => return EnvMsg.snapshot (.complete (← jEntry (← fld sj "prevE")) (← jEntry (← fld sj "lastE")) (← jNats (← fld sj "cluster"))))
+        | _ =>
+          let pE ← jEntry (← fld sj "prevE")
+          let lE ← jEntry (← fld sj "lastE")
+          let cl ← jNats (← fld sj "cluster")
+          let fails := (fldD sj "storeFails").getBool?.toOption.getD false
+          if fails then
+            return EnvMsg.snapshot (snapStoreFails (envState s (← jNat (← fld j "from")) (← jNat (← fld j "term"))) pE lE cl)
+          else return EnvMsg.snapshot (.complete pE lE cl))
     let (x', s', r, obs) := appendMsgEnv cfg x s (← jNat (← fld j "from")) (← jNat (← fld j "term")) (← jNat (← fld j "commit")) kind
     let obsJ := Json.mkObj [("deadline", Json.bool obs.deadlineReset),
       ("termVote", match obs.storedTermVote with | none => Json.null | some (t, v) => Json.arr #[nat t, optNat v]),
